@@ -1505,7 +1505,20 @@ class SuccessionDiagram:
         assert self.dag.edges[parent_id, node_id] is not None
         parent_depth = cast(int, self.dag.nodes[parent_id]["depth"])
         current_depth = cast(int, self.dag.nodes[node_id]["depth"])
-        self.dag.nodes[node_id]["depth"] = max(current_depth, parent_depth + 1)
+        if parent_depth + 1 <= current_depth:
+            return
+        self.dag.nodes[node_id]["depth"] = parent_depth + 1
+
+        # A longer path to this node is also a longer path to everything
+        # below it, so the increase has to be propagated to the descendants.
+        stack = [node_id]
+        while len(stack) > 0:
+            current = stack.pop()
+            next_depth = cast(int, self.dag.nodes[current]["depth"]) + 1
+            for child in self.dag.successors(current):  # type: ignore
+                if cast(int, self.dag.nodes[child]["depth"]) < next_depth:
+                    self.dag.nodes[child]["depth"] = next_depth
+                    stack.append(child)  # type: ignore
 
     def _expand_one_node(self, node_id: int):
         """
